@@ -82,6 +82,22 @@ pub fn run_cli(args: &[String], cwd: &Path) -> Result<Proc, String> {
 }
 
 fn hex_text(bytes: &[u8], style: u8) -> String {
+    if (style >> 1) & 7 >= 6 {
+        // whitespace may fall anywhere, also between the two digits of a byte
+        let plain: String = bytes.iter().map(|b| format!("{:02x}", b)).collect();
+        let mut s = String::new();
+        for (i, ch) in plain.chars().enumerate() {
+            s.push(ch);
+            if (style >> 1) & 7 == 6 {
+                if i % 15 == 14 {
+                    s.push('\n'); // dump wrapped at an odd column
+                }
+            } else {
+                s.push(' '); // one nibble per token
+            }
+        }
+        return s;
+    }
     let mut s = String::new();
     for (i, b) in bytes.iter().enumerate() {
         if style & 1 != 0 {
@@ -182,7 +198,7 @@ pub fn eval_mux(c: &MuxCase) -> Outcome {
         if k == 7 {
             OpusGene { config: 4, stereo: false, code: 0, count_byte: 0, len: 12, corrupt: 0 }.build(2).0
         } else {
-            AdtsGene { protection_absent: true, profile: 1, sfi: 3, chan: 1, payload_len: 14, extra: 0, fill: 0, corrupt: 0 }.build(2).0
+            AdtsGene { protection_absent: true, profile: 1, sfi: 3, chan: 1, payload_len: 14, extra: 0, fill: 0, corrupt: 0 , misc: 0}.build(2).0
         }
     });
     let vpath = dir.join("video.hex");
